@@ -25,6 +25,9 @@ func init() {
 		Assumptions: []string{"failure of a sub-match that is returned unchanged to the caller is handled by the caller's frame (checked at the caller)"},
 		Run:         runC09,
 		Mutants: []Mutant{
+			{Name: "pattern-shares-the-parsers-name-table", File: "pattern/parser.go", Rule: "R9.3", KeyPart: "Parse::pattern-owns-its-bindings-table",
+				Old: "\tbindings := make([]string, len(p.bindings))\n\tfor name, idx := range p.bindings {\n\t\tbindings[idx] = name\n\t}\n", New: "\tif cap(p.names) < len(p.bindings) {\n\t\tp.names = make([]string, len(p.bindings))\n\t}\n\tbindings := p.names[:len(p.bindings)]\n\tfor name, idx := range p.bindings {\n\t\tbindings[idx] = name\n\t}\n",
+				More: []Edit{{File: "pattern/parser.go", Old: "\tbindings map[string]int\n}", New: "\tbindings map[string]int\n\tnames    []string\n}"}}},
 			{Name: "bound-decided-by-nil-test", File: "pattern/match.go", Rule: "R9.6", KeyPart: "Binding).Match::State-presence-by-comma-ok",
 				Old: "\t\tv, ok := m.State[b.Name]\n\t\tif ok {\n", New: "\t\tv := m.State[b.Name]\n\t\tif v != nil {\n"},
 			{Name: "or-no-pop", File: "pattern/match.go", Rule: "R9.1", KeyPart: "Or).Match",
@@ -364,7 +367,65 @@ func runC09(c *Ctx) {
 				}
 			})
 		}
-		c.Check(FuncKey(parse)+"::bindings-table-by-index", parse.Pos(), filled, "Parse fills Pattern.Bindings[idx] = name from the same table bindingIndex allocates from")
+		// … or the table already is a list ordered by index and Pattern.Bindings is a copy of it
+		var stored []ssa.Value
+		for _, f := range DeepFuncs(parse, 2) {
+			Instrs(f, false, func(in ssa.Instruction) {
+				if st, ok := in.(*ssa.Store); ok && IsFieldOf("Pattern", "Bindings")(st.Addr) {
+					stored = append(stored, st.Val)
+				}
+			})
+		}
+		var fresh func(v ssa.Value, depth int) bool
+		fresh = func(v ssa.Value, depth int) bool {
+			if depth > 4 {
+				return false
+			}
+			switch x := v.(type) {
+			case *ssa.MakeSlice:
+				return true
+			case *ssa.Const:
+				return true // nil
+			case *ssa.Slice:
+				if al, ok := x.X.(*ssa.Alloc); ok {
+					_ = al
+					return true // a literal's backing array
+				}
+				return fresh(x.X, depth+1)
+			case *ssa.Phi:
+				for _, e := range x.Edges {
+					if !fresh(e, depth+1) {
+						return false
+					}
+				}
+				return true
+			case *ssa.Call:
+				switch CalleeName(&x.Call) {
+				case "slices.Clone", "slices.Collect", "slices.Sorted", "strings.Fields", "strings.Split":
+					return true
+				case "builtin.append":
+					return fresh(x.Call.Args[0], depth+1)
+				}
+			}
+			return false
+		}
+		copied := false
+		for _, v := range stored {
+			if fresh(v, 0) && Derives(v, IsFieldOf("Parser", "bindings")) {
+				copied = true
+			}
+		}
+		c.Check(FuncKey(parse)+"::bindings-table-by-index", parse.Pos(), filled || copied, "Parse fills Pattern.Bindings[idx] = name from the same table bindingIndex allocates from (or copies the index-ordered list)")
+		// the pattern owns its index→name table: a Parser can be used for several patterns, and
+		// whatever it does to its own table afterwards must not reach patterns it returned earlier
+		// (pop undoes failed alternatives by looking names up in that table)
+		owns := len(stored) > 0
+		for _, v := range stored {
+			if !fresh(v, 0) {
+				owns = false
+			}
+		}
+		c.Check(FuncKey(parse)+"::pattern-owns-its-bindings-table", parse.Pos(), owns, "Pattern.Bindings must be storage allocated for this pattern (make, clone, a fresh append), not the parser's own table: the next Parse on the same Parser would rewrite the table of a pattern that is already in use, and Matcher.pop would then delete the wrong names")
 	})
 
 	c.Rule("R9.4", func() {
